@@ -221,7 +221,15 @@ func (d *DeadlineChan[T]) SetDeadline(t time.Time) error {
 		return io.EOF
 	}
 	verifYield("dc.setdl.set")
-	return d.deadline.SetDeadline(t)
+	err := d.deadline.SetDeadline(t)
+	// Close may have completed since the check above. Setting a deadline
+	// un-expires the deadline channel, which would leave callers that block
+	// from now on without the wake-up Close already delivered: cancel again.
+	if d.closed.Load() {
+		d.deadline.Cancel(io.EOF)
+		return io.EOF
+	}
+	return err
 }
 
 // Cancel cancels pending calls to Send and Recv and causes them to return err
